@@ -186,3 +186,49 @@ Section Contracts.
     rewrite has_bit by lia. fold (stored T q). rewrite Hs. cbn [Z.b2z Z.eqb]. now rewrite andb_false_r.
   Qed.
 End Contracts.
+
+(** * the statements in the form the correspondence run evaluates them
+    (Run/C03.v: the height is computed from T, the word is built by NewPath,
+    the expected value is [spec_rank]/[spec_loose]) *)
+
+Lemma Height_nonneg T : 1 <= T < 2 ^ 31 -> Height T = Z.of_nat (Z.to_nat (Height T)).
+Proof.
+  intros HT. unfold Height. rewrite u32_id by lia. destruct T as [|p|p]; try lia. cbn [bitlen].
+  pose proof (Z.log2_nonneg (Z.pos p)). lia.
+Qed.
+
+Section Checker.
+  Variables (T : Z) (q : node).
+  Hypothesis HT : 1 <= T < 2 ^ 31.
+  Let h := Z.to_nat (Height T).
+  Hypothesis Hq : (length q <= h)%nat.
+
+  Let HH : Height T = Z.of_nat h := Height_nonneg T HT.
+
+  Lemma word_enc : NewPath (valL h q) (Z.of_nat (length q)) (Height T) = enc h q.
+  Proof.
+    destruct (Height_spec T h HT HH) as [_ Hh]. rewrite HH. apply NewPath_enc; [lia|exact Hq].
+  Qed.
+
+  Lemma spec_loose_eq : spec_loose T h q = (pre_rank T h q, Z.b2z (stored T q)).
+  Proof. unfold spec_loose. rewrite spec_rank_pre_rank by (try exact Hq; apply T_range_h; assumption). reflexivity. Qed.
+
+  Lemma checker_loose (b : bool) :
+    (if b then PathToIndexLoose_debug else PathToIndexLoose) T (NewPath (valL h q) (Z.of_nat (length q)) (Height T))
+    = Some (spec_loose T h q).
+  Proof.
+    rewrite word_enc, spec_loose_eq. destruct b.
+    - rewrite (PathToIndexLoose_debug_eq T h q HT HH Hq). now apply PathToIndexLoose_pre_rank.
+    - now apply PathToIndexLoose_pre_rank.
+  Qed.
+
+  Lemma checker_strict (b : bool) : stored T q = true ->
+    (if b then PathToIndex_debug else PathToIndex) T (NewPath (valL h q) (Z.of_nat (length q)) (Height T))
+    = Some (spec_rank T h q).
+  Proof.
+    intros Hs. rewrite word_enc. rewrite spec_rank_pre_rank by (try exact Hq; apply T_range_h; assumption).
+    destruct b.
+    - rewrite (PathToIndex_debug_eq T h q HT HH Hq Hs). now apply PathToIndex_pre_rank.
+    - now apply PathToIndex_pre_rank.
+  Qed.
+End Checker.
